@@ -46,6 +46,7 @@
 #include "../common/bits.h" /* ZSTD_highbit32 */
 #include "../zdict.h"
 #include "cover.h"
+#include "../common/zstd_verif.h" /* ZSTD_VERIF_EV (no-op unless ZSTD_VERIF_TRACE) */
 
 /*-*************************************
 *  Constants
@@ -574,6 +575,7 @@ static void COVER_ctx_destroy(COVER_ctx_t *ctx) {
   if (!ctx) {
     return;
   }
+  ZSTD_VERIF_EV("cvCtxDestroy", ctx, 0, 0, 0, 0, 0, 0);
   if (ctx->suffix) {
     free(ctx->suffix);
     ctx->suffix = NULL;
@@ -685,6 +687,7 @@ static size_t COVER_ctx_init(COVER_ctx_t *ctx, const void *samplesBuffer,
                 (ctx->d <= 8 ? &COVER_cmp8 : &COVER_cmp), &COVER_group);
   ctx->freqs = ctx->suffix;
   ctx->suffix = NULL;
+  ZSTD_VERIF_EV("cvCtxInit", ctx, 0, 0, 0, 0, 0, 0);
   return 0;
 }
 
@@ -914,6 +917,7 @@ void COVER_best_wait(COVER_best_t *best) {
   while (best->liveJobs != 0) {
     ZSTD_pthread_cond_wait(&best->cond, &best->mutex);
   }
+  ZSTD_VERIF_EV("cvWaitDone", best, best->liveJobs, 0, 0, 0, 0, 0);
   ZSTD_pthread_mutex_unlock(&best->mutex);
 }
 
@@ -942,6 +946,7 @@ void COVER_best_start(COVER_best_t *best) {
   }
   ZSTD_pthread_mutex_lock(&best->mutex);
   ++best->liveJobs;
+  ZSTD_VERIF_EV("cvStart", best, best->liveJobs, 0, 0, 0, 0, 0);
   ZSTD_pthread_mutex_unlock(&best->mutex);
 }
 
@@ -992,6 +997,7 @@ void COVER_best_finish(COVER_best_t* best,
     if (liveJobs == 0) {
       ZSTD_pthread_cond_broadcast(&best->cond);
     }
+    ZSTD_VERIF_EV("cvFinish", best, liveJobs, ZSTD_isError(compressedSize) ? -1 : (long long)(compressedSize & 0x3fffffff), best->compressedSize == compressedSize, parameters.k, parameters.d, 0);
     ZSTD_pthread_mutex_unlock(&best->mutex);
   }
 }
@@ -1132,6 +1138,7 @@ static void COVER_tryParameters(void *opaque)
   BYTE* const dict = (BYTE*)malloc(dictBufferCapacity);
   COVER_dictSelection_t selection = COVER_dictSelectionError(ERROR(GENERIC));
   U32* const freqs = (U32*)malloc(ctx->suffixSize * sizeof(U32));
+  ZSTD_VERIF_EV("cvJobBegin", ctx, parameters.k, parameters.d, 0, 0, 0, 0);
   if (!COVER_map_init(&activeDmers, parameters.k - parameters.d + 1)) {
     DISPLAYLEVEL(1, "Failed to allocate dmer map: out of memory\n");
     goto _cleanup;
